@@ -140,8 +140,53 @@ def gas_classes():
 # binding A: mixtures
 # ----------------------------------------------------------------------------
 
-def run_mix_vector(ctx, v):
-    """One exported mixture through the real TaurexChemistry (fixtures must already be registered)."""
+def row_reps(row, log_ok):
+    """every built-in way of REQUESTING the per-layer abundances `row` (exact rationals, 2 layers) exactly"""
+    a, b = float(row[0]), float(row[-1])
+    if len(set(row)) == 1:
+        reps = ['constant', 'array1', 'array', 'array3']
+        if log_ok and a > 0:
+            reps += ['twopoint', 'twolayer']
+    else:
+        reps = ['array', 'array3']
+        if log_ok and a > 0 and b > 0:
+            reps += ['twopoint']
+    return reps
+
+
+def rep_gas(rep, name, row):
+    G = gas_classes()
+    a, b = float(row[0]), float(row[-1])
+    if rep == 'constant':
+        return G['constant'](name, mix_ratio=a)
+    if rep == 'array1':
+        return G['array'](name, mix_ratio_array=[a])
+    if rep == 'array':
+        return G['array'](name, mix_ratio_array=[float(c) for c in row])
+    if rep == 'array3':          # a table with another length than the layer count: the end layers sit on the end entries
+        return G['array'](name, mix_ratio_array=[a, float((row[0] + row[-1]) / 2), b])
+    if rep == 'twopoint':
+        return G['twopoint'](name, mix_ratio_surface=a, mix_ratio_top=b)
+    if rep == 'twolayer':
+        return G['twolayer'](name, mix_ratio_surface=a, mix_ratio_top=b, mix_ratio_P=1e3)
+    raise Machinery('representation ' + rep)
+
+
+def scalar_mu_routes(chem):
+    """every public scalar route to the mean molecular weight (amu): name -> value or the exception's text"""
+    out = {}
+    for name, fn in (('mu', lambda: chem.mu), ('derived_parameters', lambda: chem.derived_parameters()['mu'][2]())):
+        try:
+            out[name] = float(fn())
+        except Exception as ex:
+            out[name] = '%s: %s' % (type(ex).__name__, str(ex)[:60])
+    return out
+
+
+def run_mix_vector(ctx, v, rng=None):
+    """One exported mixture through the real TaurexChemistry (fixtures must already be registered).  With `rng` (or a
+    recorded v['reps']) every requested row is handed over through a seeded one of the built-in profile classes that can
+    request it exactly (the class that carries an over-unity abundance is a dimension of the quantifier)."""
     from taurex.data.profiles.chemistry.taurexchemistry import TaurexChemistry
     from taurex.exceptions import InvalidModelException
     from taurex.constants import AMU
@@ -153,6 +198,14 @@ def run_mix_vector(ctx, v):
     totals = [sum(row[l] for row in x) for l in range(nl)]
     bnd = 'total>1' if max(totals) > 1 else ('total==1' if max(totals) == 1 else 'total<1')
     cls = 'nf%d:nt%d:%s' % (nf, len(x), bnd)
+    reps = v.get('reps')
+    if reps is None and rng is not None:
+        log_ok = all(t != 1 for t in totals)      # 10**log10(v) may be one ulp off: keep exact-one totals in the linear classes
+        reps = [rng.choice(row_reps(row, log_ok)) for row in x]
+    if reps is not None:
+        single = any(c > 1 for row in x for c in row)
+        cls += ':%s:%s' % ('single>1' if single else 'each<=1', '+'.join(sorted(set(reps))) or 'none')
+        v = dict(v, reps=reps)
     vec = dict(v, kind='mix')
     kw = dict(fill_gases=FILLS[:nf])
     if nf == 2:
@@ -161,7 +214,9 @@ def run_mix_vector(ctx, v):
         kw['ratio'] = [float(r) for r in ratios]
     chem = TaurexChemistry(**kw)
     for g, row in enumerate(x):
-        if len(set(row)) == 1 and g % 2 == 0:
+        if reps is not None:
+            chem.addGas(rep_gas(reps[g], TRACES[g], row))
+        elif len(set(row)) == 1 and g % 2 == 0:
             chem.addGas(G['constant'](TRACES[g], mix_ratio=float(row[0])))
         else:
             chem.addGas(G['array'](TRACES[g], mix_ratio_array=[float(c) for c in row]))
@@ -173,8 +228,12 @@ def run_mix_vector(ctx, v):
         raised = None
     except InvalidModelException as e:
         raised = e
+    except Exception as e:           # any other exception for an input inside the quantifier is a verdict, not a crash
+        ok('invalid_iff_exceeds_one', False, 'totals %s: %s: %s' % ([str(t) for t in totals], type(e).__name__, str(e)[:80]))
+        return
     ok('invalid_iff_exceeds_one', (raised is not None) == v['invalid'],
-       'totals %s: %s' % ([str(t) for t in totals], 'rejected' if raised is not None else 'accepted'))
+       'requested %s totals %s: %s' % ([[str(c) for c in row] for row in x], [str(t) for t in totals],
+                                       'rejected' if raised is not None else 'accepted'))
     ok('active_split', list(chem.activeGases) == v['active'] and list(chem.inactiveGases) == v['inactive'],
        'active %r inactive %r expected %r / %r' % (list(chem.activeGases), list(chem.inactiveGases), v['active'], v['inactive']))
     if raised is not None or v['invalid']:
@@ -198,6 +257,13 @@ def run_mix_vector(ctx, v):
     mu = np.asarray(chem.muProfile, dtype=float)
     ok('mu_weighted_sum', mu.shape == (nl,) and all(close(mu[l], mu_exp[l], rel=REL) for l in range(nl)),
        'mu %r expected %r' % (mu / AMU, [m / AMU for m in mu_exp]))
+    if 'muw' in v:      # the scalar routes: TLC's weights (those of the surface layer) x independent masses, in amu
+        mus = float(sum(frac(w) * m for w, m in zip(v['muw'], masses)))
+        for route, got in sorted(scalar_mu_routes(chem).items()):
+            ctx.verdict('mu_scalar_surface_weighted_sum', not isinstance(got, str) and close(got, mus, rel=REL),
+                        cls='%s:route=%s:%s' % (cls, route, 'layers-differ' if len({tuple(col) for col in zip(*exp)}) > 1 else 'uniform'),
+                        detail='%s reads %r, weighted sum of the surface layer %r (per-layer %r)' % (route, got, mus, [m / AMU for m in mu_exp]),
+                        vector=vec)
     # the split profiles are the rows of the full profile
     good = True
     am, im = chem.activeGasMixProfile, chem.inactiveGasMixProfile
@@ -214,7 +280,7 @@ def run_mix_vector(ctx, v):
     ok('active_split_profiles', good, 'active/inactive mix profiles are not the rows of mixProfile')
 
 
-def run_mix_vectors(ctx, vecs):
+def run_mix_vectors(ctx, vecs, rng=None):
     groups = {}
     for v in vecs:
         groups.setdefault(tuple(v['avail']), []).append(v)
@@ -222,7 +288,7 @@ def run_mix_vectors(ctx, vecs):
         for avail, vs in sorted(groups.items()):
             set_available(avail)
             for v in vs:
-                run_mix_vector(ctx, v)
+                run_mix_vector(ctx, v, rng)
     finally:
         clear_available()
 
@@ -331,6 +397,9 @@ def run_settings_vector(ctx, v, rng):
         mu = np.asarray(chem.muProfile, dtype=float)
         ok('requested_mu_weighted_sum', mu.shape == (nl,) and all(close(mu[l], mu_exp[l], rel=REL) for l in range(nl)),
            'mu %r expected %r' % (mu / AMU, [m / AMU for m in mu_exp]))
+        sc = scalar_mu_routes(chem)
+        ok('requested_mu_scalar', all(not isinstance(g, str) and close(g, mu_exp[0] / AMU, rel=REL) for g in sc.values()),
+           'scalar routes %r, weighted sum of the surface layer %r' % (sc, mu_exp[0] / AMU))
 
 
 def run_settings_vectors(ctx, vecs, seed=None):
@@ -554,13 +623,18 @@ def mix_event(r):
             invalid = True
         except Exception as ex:      # any other exception: no mixture at all
             return dict(ev='mix', n=n, S=SMIX, tol=1, ratios=[], gases=[], avail=[], active=['error'], inactive=[],
-                        invalid=False, x=[], mix=[], badsum=0, neg=0, badmu=0), '%s: %s' % (type(ex).__name__, str(ex)[:80])
+                        invalid=False, x=[], mix=[], badsum=0, neg=0, badmu=0, badmus=0), '%s: %s' % (type(ex).__name__, str(ex)[:80])
         gases = list(chem.gases)
         e = dict(ev='mix', n=n, S=SMIX, tol=len(r['gases']) + 2, ratios=[list(q) for q in r['ratios'][:max(0, len(r['fills']) - 1)]],
                  gases=gases, avail=sorted(r['avail']), active=list(chem.activeGases), inactive=list(chem.inactiveGases),
-                 invalid=invalid, x=[], mix=[], badsum=0, neg=0, badmu=0)
-        # the trace profiles are needed by the spec to decide the validity verdict as well
-        xs = [np.asarray(g_.mixProfile, dtype=float) for g_ in chem._gases]
+                 invalid=invalid, x=[], mix=[], badsum=0, neg=0, badmu=0, badmus=0)
+        # the trace profiles are needed by the spec to decide the validity verdict as well: the REQUESTED ones where the
+        # recipe determines them exactly (constants, tables with one entry per layer), else those the gases report
+        if r['exact']:
+            xs = [np.full(n, g_['p']['s'], dtype=float) if g_['kind'] == 'constant' else np.asarray(g_['p']['arr'], dtype=float)
+                  for g_ in r['gases']]
+        else:
+            xs = [np.asarray(g_.mixProfile, dtype=float) for g_ in chem._gases]
         clampi = lambda v: int(round(min(max(v, -2.0), 2.0) * SMIX)) if np.isfinite(v) else -1
         e['x'] = [[clampi(v) for v in row] for row in xs]
         detail = 'invalid' if invalid else ''
@@ -573,7 +647,12 @@ def mix_event(r):
             mu = np.asarray(chem.muProfile, dtype=float) / AMU
             mu_rel = (mix * masses[:, None]).sum(axis=0)
             e['badmu'] = int((np.abs(mu - mu_rel) > 1e-12 * np.abs(mu_rel)).sum()) if mu.shape == mu_rel.shape else n
+            # scalar routes: the weighted sum of the SURFACE layer (1e-12: a dot product of <= 8 terms of order 1..50)
+            sc = scalar_mu_routes(chem)
+            e['badmus'] = sum(1 for g_ in sc.values() if isinstance(g_, str) or not abs(g_ - mu_rel[0]) <= 1e-12 * abs(mu_rel[0]))
             detail = 'fill[0]=%r sum dev %r mu[0]=%r' % (mix[0, 0], float(np.abs(mix.sum(axis=0) - 1).max()), float(mu[0]))
+            if e['badmus']:
+                detail = 'scalar mu routes %r, weighted sum of the surface layer %r; ' % (sc, float(mu_rel[0])) + detail
         return e, detail
     finally:
         clear_available()
@@ -670,6 +749,39 @@ def mix_recipes(rng, count, nmax):
     return out
 
 
+def over_mix_recipes(rng, count, nmax):
+    """random chemistries in which ONE tabulated gas alone is requested above one: at the top only, in the middle only,
+    at the surface only or everywhere (own random stream: the recipes of the other classes stay what they were)"""
+    out = []
+    for r in mix_recipes(rng, 4 * count, nmax):
+        if len(out) == count:
+            break
+        if not r['exact'] or not r['gases']:
+            continue
+        n = r['n']
+        g = rng.choice(r['gases'])
+        arr = list(g['p']['arr']) if g['kind'] == 'array' else [g['p']['s']] * n
+        where = rng.choice(['top', 'middle', 'surface', 'everywhere'])
+        idx = {'top': [n - 1], 'surface': [0], 'middle': [rng.randrange(n)] if n < 3 else sorted(rng.sample(range(1, n - 1), min(n - 2, rng.choice([1, 2])))),
+               'everywhere': list(range(n))}[where]
+        val = rng.choice([65, 72, 96, 128]) / 64.0
+        for i in idx:
+            arr[i] = val
+        g['kind'], g['p'] = 'array', dict(arr=arr)
+        r['over'] = where
+        out.append(r)
+    return out
+
+
+def over_exact_recipes(rng, n):
+    """a table whose control values reach above one, on a layer count that differs from the table length or not"""
+    r = dict(rgrid(rng, n), ev='exact', kind='array', s=rng.randint(-12, -1), t=rng.randint(-12, -1), pl0=rng.randrange(n), sw=10,
+             arr=[rng.randint(0, 24) for _ in range(rng.choice([1, 2, 3, 4, 7, n]))], over=True)
+    r['pa'] = float(int(r['pa']))
+    r['arr'][rng.randrange(len(r['arr']))] = rng.randint(17, 24)
+    return [r]
+
+
 # ----------------------------------------------------------------------------
 # trace validation
 # ----------------------------------------------------------------------------
@@ -679,8 +791,9 @@ def event_cls(r):
         sw = r['p'].get('sw')
         return 'profile:%s%s' % (r['kind'], '' if sw is None else ':sw%s' % (sw if isinstance(sw, int) else 'float'))
     if r['ev'] == 'exact':
-        return 'exact:%s%s' % (r['kind'], ':sw%d' % r['sw'] if r['kind'] == 'twolayer' else '')
-    return 'mix:nf%d:nt%d:%s' % (len(r['fills']), len(r['gases']), 'dyadic' if r['exact'] else 'profiles')
+        return 'exact:%s%s%s' % (r['kind'], ':sw%d' % r['sw'] if r['kind'] == 'twolayer' else '', ':table-above-one' if r.get('over') else '')
+    return 'mix:nf%d:nt%d:%s%s' % (len(r['fills']), len(r['gases']), 'dyadic' if r['exact'] else 'profiles',
+                                   ':single>1@' + r['over'] if r.get('over') else '')
 
 
 def validate(ctx, recipes, label, canary=True):
@@ -815,6 +928,23 @@ def run(ctx):
         vecs = [v for v in vecs if keep(v)]
     run_mix_vectors(ctx, vecs)
     ctx.note('mixture vectors replayed: %d' % len(vecs))
+    # ---- round 4: a SINGLE gas requested above one (in one layer / everywhere / exactly one), handed over through every
+    # built-in profile class that can request it; the scalar routes to the mean molecular weight on layers that differ
+    if not q:
+        ctx.expect_refuted('refute-clip-traces', 'MC_Chemistry', 'RF_Chemistry_clip_traces.cfg', 'InvalidIffExceedsOne')
+        ctx.expect_refuted('refute-mu-layer-mean', 'MC_Chemistry', 'RF_Chemistry_mu_layer_mean.cfg', 'ScalarMuAtSurface')
+        ctx.expect_refuted('refute-mu-top-layer', 'MC_Chemistry', 'RF_Chemistry_mu_top_layer.cfg', 'ScalarMuAtSurface')
+    res = ctx.check_spec('export-mixtures-single-gas-above-one', 'MC_Chemistry', 'EX_Chemistry_over_%s.cfg' % ctx.tier, workers=1)
+    wit = {(w['variant'], w['inv']) for w in res.tagged('WITNESS')}
+    if wit != {('clip_traces', 'InvalidIffExceedsOne'), ('mu_layer_mean', 'ScalarMuAtSurface')}:
+        raise Machinery('InvalidIffExceedsOne / ScalarMuAtSurface are vacuous on the single-gas domain: witnesses %r' % sorted(wit))
+    ov = dedupe(res.tagged('VEC'))
+    if len(ov) < 500 or not any(v['single'] and not any(sum(frac(r[l]) for r in v['x']) > 1 and all(frac(r[l]) <= 1 for r in v['x'])
+                                                        for l in range(v['nl'])) for v in ov) or \
+            not any(not v['invalid'] and any(frac(c) == 1 for r in v['x'] for c in r) for v in ov):
+        raise Machinery('only %d single-gas vectors exported / no vector in which one gas alone carries the excess / none at exactly one' % len(ov))
+    run_mix_vectors(ctx, ov, random.Random(ctx.seed * 32452843 + 4))
+    ctx.note('mixture vectors with a single gas requested at or above one (every profile class) replayed: %d' % len(ov))
     res = ctx.check_spec('export-settings', 'MC_ChemistrySettings', 'EX_ChemistrySettings_%s.cfg' % ctx.tier, workers=1,
                          need_actions=('WriteRatio', 'WriteTrace', 'Eval'))
     sv = res.tagged('SVEC')
@@ -842,8 +972,11 @@ def run(ctx):
     for n in ns:
         for _ in range(1 if q else 3):
             recipes += exact_recipes(rng, n)
+    rng4 = random.Random(ctx.seed * 49979687 + 4)
+    for n in ns:
+        recipes += over_exact_recipes(rng4, n)
     nex = validate(ctx, recipes, 'exact')
-    nmix = validate(ctx, mix_recipes(rng, 80 if q else 500, 40 if q else 120), 'mix')
+    nmix = validate(ctx, mix_recipes(rng, 80 if q else 500, 40 if q else 120) + over_mix_recipes(rng4, 24 if q else 120, 40 if q else 120), 'mix')
     ctx.note('trace events: %d profile (layer counts %d..%d, %d distinct), %d exact, %d mixtures' %
              (nprof, ns[0], ns[-1], len(ns), nex, nmix))
     # ---- binding C: long-lived objects (Functional.tla walks)
